@@ -209,4 +209,50 @@ let check inp obs =
     detail = (if prop_ok && model_eq then "" else
                 String.concat " | " (List.rev !bad) ^ (if first_diff = "" then "" else " || " ^ first_diff)) }
 
-let () = run_driver check
+(* vm_compute cross-check: the history replayed inside Coq (run of coq/BlockTree/Model.v) must
+   give the AddBlock outcomes and the pruned lists the implementation reported *)
+let coq inp obs =
+  try
+    let f = split_ws inp in
+    let rootnum, nblk, rest = match f with
+      | "t" :: rn :: nb :: rest -> n_of_hex rn, hexi nb, rest
+      | _ -> raise Exit in
+    let rec take k l acc = if k = 0 then (List.rev acc, l) else
+        match l with x :: r -> take (k - 1) r (x :: acc) | [] -> raise Exit in
+    let blks_s, ops = take nblk rest [] in
+    if nblk > 12 then raise Exit;
+    let blks = Array.of_list (("0", "0", 0, "0") :: List.map (fun s -> match split '.' s with
+        | [p; nu; k; a] -> (p, nu, hexi k, a) | _ -> raise Exit) blks_s) in
+    let htab, oops = match split_ws obs with
+      | h :: r when String.length h > 2 && String.sub h 0 2 = "H:" ->
+        Array.of_list (split ',' (String.sub h 2 (String.length h - 2))), r
+      | _ -> raise Exit in
+    let hash_lit i = if i >= 0 && i <= nblk then "(0x" ^ htab.(i) ^ ")%N"
+      else coq_n (unknown_hash i) in
+    let kind_s = function 0 -> "DPrimary" | 1 -> "DSecondaryPlain" | 2 -> "DSecondaryVRF" | 3 -> "DNone"
+                          | 4 -> "DNotPreRuntime" | _ -> "DUndecodable" in
+    let z_lit a = let v = int_of_string ("0x" ^ a) in Printf.sprintf "(%d)%%Z" v in
+    let terms = ref [] and expect = ref [] in
+    List.iter2 (fun op tok ->
+        match op.[0] with
+        | 'a' ->
+          let i = hexi (String.sub op 1 (String.length op - 1)) in
+          let (p, nu, k, a) = blks.(i) in
+          let pi = hexi p in
+          terms := Printf.sprintf "OAdd (mkHeader %s %s (0x%s)%%N %s) %s" (hash_lit i)
+              (if pi >= 0 && pi < i then hash_lit pi else coq_n (unknown_hash pi)) nu (kind_s k) (z_lit a) :: !terms;
+          expect := (if tok = "ok" then "(0%N, [])" else
+                       Printf.sprintf "(%s%%N, [])" (String.sub tok 1 (String.length tok - 1))) :: !expect
+        | 'f' ->
+          let i = hexi (String.sub op 1 (String.length op - 1)) in
+          terms := Printf.sprintf "OFin %s" (hash_lit i) :: !terms;
+          let l = String.sub tok 2 (String.length tok - 2) in
+          let ids = if l = "-" then [] else split ',' l in
+          if List.mem "?" ids then raise Exit;
+          expect := Printf.sprintf "(100%%N, [%s])" (String.concat "; " (List.map (fun x -> hash_lit (hexi x)) ids)) :: !expect
+        | _ -> ()) ops oops;
+    Some (Printf.sprintf "run_matches %s %s [%s] [%s]" (hash_lit 0) (coq_n rootnum)
+            (String.concat "; " (List.rev !terms)) (String.concat "; " (List.rev !expect)))
+  with _ -> None
+
+let () = run_driver ~coq check
